@@ -125,7 +125,7 @@ structure St where
   late : Nat → Nat
   /-- ghost: `holder p = some a`: a took p out of a mailbox and has not woken it yet -/
   holder : Nat → Option Nat
-  /-- ghost: the fiber whose exchange of g's detach_state found NONE -/
+  /-- ghost: the fiber whose exchange of g's detach_state found NONE and that therefore parks in g's mailbox -/
   first : Nat → Option Nat
   /-- ghost: the client whose exchange found WAIT_FOR_JOINER (it takes the finished fiber) -/
   taker : Nat → Option Nat
@@ -227,8 +227,7 @@ def stepCore (s : St) : Ev → Option St
         some { s with det := upd s.det g new, pc := upd s.pc a (.take .detach g 0), detX := upd s.detX g true,
                       tDetach := upd s.tDetach g true }
       else if old = DET then some { s with det := upd s.det g new, pc := upd s.pc a (.retn .detach g false 0) }
-      else some { s with det := upd s.det g new, pc := upd s.pc a (.retn .detach g true 0), detX := upd s.detX g true,
-                         first := upd s.first g (some a) }
+      else some { s with det := upd s.det g new, pc := upd s.pc a (.retn .detach g true 0), detX := upd s.detX g true }
     | .fLoaded =>
       if g ≠ a ∨ new ≠ WFJ then none
       else if old = NONE then
